@@ -341,10 +341,69 @@ def norm_site(path):
     return re.sub(r"^/rustc/[0-9a-f]+/library/", "std:", path)
 
 
+def tok_term(t):
+    lst = lambda x: "[" + "; ".join(x.split(".")) + "]" if x else "[]"
+    k, _, v = t.partition(":")
+    if t in (",", ":", "@", "[", "]"):
+        return {",": "AComma", ":": "AColon", "@": "AAt", "[": "ALBr", "]": "ARBr"}[t]
+    if t == "NL":
+        return "ANl"
+    if t == "EOF":
+        return "AEof"
+    if t == "F":
+        return "AFlt"
+    if t == "U":
+        return "ANull"
+    return {"D": f"ADir {lst(v)}", "L": f"ALab {lst(v)}", "I": f"AId {lst(v)}", "S": f"AStr {lst(v)}", "R": f"AReg {v}",
+            "N": f"AInt ({v})%Z", "B": f"ABool {v}"}[k]
+
+
+def lex_tie(ctx, exe, inputs, wd):
+    """every short UTF-8 input of every kind through the .aasm lexer (hook asm::verif_tokens): the token list, or
+    the fact that lexing fails, must be what Model/AasmLex.v computes"""
+    f = os.path.join(wd, "inputs_all.txt")
+    rc, out = vlib.sh([exe, "--lex", f], timeout=600)
+    cases, nerr = [], 0
+    for line in out.splitlines():
+        t = line.split("\t")
+        if t[0] != "X" or len(t) < 3:
+            continue
+        idx = int(t[1])
+        toks = t[2].split(" ") if t[2] else []
+        if toks and toks[-1] == "PANIC":
+            ctx.violation("panic:aasm-lexer", "the .aasm lexer panicked", {"input_hex": hexs(inputs[idx][2]), "label": inputs[idx][1]})
+            continue
+        cps = "[" + "; ".join(str(ord(c)) for c in inputs[idx][2].decode("utf-8")) + "]"
+        if toks and toks[-1] == "ERR":
+            nerr += 1
+            cases.append((cps, "(@None (list atok))"))
+        else:
+            cases.append((cps, "(Some [" + "; ".join(tok_term(x) for x in toks) + "])"))
+    if not cases:
+        ctx.broken.append("lexer tie: hx_fuzz --lex produced nothing")
+        return
+    imp = "From Aelys Require Import Model.AasmLex.\nOpen Scope N_scope."
+    fails, err = vlib.coq_eval_cases("c07lex", imp, "(fun cs => fst (lex cs))", "lexobs_eqb", cases, shard=300, timeout=900)
+    if err:
+        ctx.broken.append("correspondence C07 (aasm lexer): model evaluation failed")
+        ctx.log(err[-2000:])
+    for k in fails[:3]:
+        mo, _ = vlib.coq_eval_terms("c07lex", imp, [f"fst (lex {cases[k][0]})"])
+        ctx.violation("aasm-lexer-differs", "the .aasm lexer and Model/AasmLex.v disagree on an input",
+                      {"code_points": cases[k][0][:2000], "implementation": cases[k][1][:2000], "model": (mo[0] or "")[:2000] if mo else None})
+    if fails:
+        ctx.broken.append(f"correspondence C07 (aasm lexer): {len(fails)} of {len(cases)} inputs differ")
+    ctx.cov["aasm_lexer_cases"] = {"inputs": len(cases), "lexical_errors": nerr}
+    ctx.cov["evaluations"] += len(cases)
+
+
 def limits():
     resource.setrlimit(resource.RLIMIT_AS, (4 << 30, 4 << 30))
     resource.setrlimit(resource.RLIMIT_STACK, (8 << 20, 8 << 20))
     resource.setrlimit(resource.RLIMIT_CORE, (0, 0))
+
+
+DIAG = collections.Counter()      # diagnostics (error codes) the CLI answered with: which limits the streams reach
 
 
 def run_cli(cli, args, wd, timeout=20):
@@ -357,6 +416,10 @@ def run_cli(cli, args, wd, timeout=20):
             return run_cli(cli, args, wd, timeout=timeout * 8)     # slow machine or really stuck?
         return "timeout"
     if rc in (0, 1):
+        for m in re.finditer(r"error\[(E\d+)\]", err):
+            DIAG[m.group(1)] += 1
+        if rc == 1 and "error[" not in err:
+            DIAG["other:" + "-".join(re.split(r"[^A-Za-z]+", err.strip().split("\n")[0])[:4]).lower()[:40]] += 1
         return "ok" if rc == 0 else "err"
     m = re.search(r"panicked at ([^\s:]+):\d+:\d+:\s*\n?([^\n]*)", err)
     if m:
@@ -433,7 +496,8 @@ def run(ctx):
         "The accept/reject classification of every .avbc input is compared with the Coq model's `read`.")
     ctx.assumptions = ["Gallina functions are total: the totality half of the property cannot be a theorem about the model; it is explored only",
                        "a crash is attributed to the stage that was running when the worker process died"]
-    proved = ctx.prove("C07", extracted=["AvbcLayout", "ValueConsts"])
+    DIAG.clear()
+    proved = ctx.prove("C07", extracted=["AvbcLayout", "ValueConsts", "AasmEscapes"])
     try:
         import json as _json
         w = _json.load(open(os.path.join(vlib.COQ, "Extracted", "AvbcLayout.warnings.json")))
@@ -445,7 +509,7 @@ def run(ctx):
     if ctx.tier == "thorough" and proved:
         ctx.coqchk("C07")
     quick = ctx.tier == "quick"
-    okc, outc = vlib.coq_make(["Base/CaseCheck.vo", "Model/AvbcObs.vo"])
+    okc, outc = vlib.coq_make(["Base/CaseCheck.vo", "Model/AvbcObs.vo", "Model/AasmLex.vo"])
     wd = os.path.join(vlib.CACHE, "c07", f"{vlib.repo_tag()}_{ctx.tier}_{ctx.seed}")
     os.makedirs(wd, exist_ok=True)
     ok, paths, log = vlib.harness_build(["hx_fuzz", "hx_avbc"], profile="dev")
@@ -500,6 +564,22 @@ def run(ctx):
             inputs.append(("avbc", ("raw-" if t[3] == "raw" else "mut-") + t[3], bytes.fromhex(t[1])))
     ctx.log(f"{len(inputs)} inputs; in-process run")
     outcomes, accepts = run_inproc(ctx, paths["hx_fuzz"], inputs, wd, "all")
+    if not quick:
+        # release profile: no debug assertions / overflow checks, other frame sizes -- crashes only (outcomes may differ)
+        okr, pr, logr = vlib.harness_build(["hx_fuzz"], profile="release")
+        if okr:
+            ctx.log("in-process run (release profile)")
+            out_r, _ = run_inproc(ctx, pr["hx_fuzz"], inputs, wd, "all")
+            for (kind, label, data), o in zip(inputs, out_r):
+                o = o or "missing"
+                if o.startswith(("panic", "crash", "missing", "stack-overflow", "alloc-failure")):
+                    sig = signature(kind, label, data, o.split(":")[1] if ":" in o else "", o)
+                    note_sig(ctx, sig + " (release)", label)
+                    ctx.violation(sig, f"in-process (release profile) {kind} input `{label}` ({len(data)} bytes): {o}",
+                                  {"kind": kind, "label": label, "input_hex": hexs(data[:4000]), "input_len": len(data), "outcome": o, "where": "hx_fuzz release profile"})
+            ctx.cov["evaluations"] += len(inputs)
+        else:
+            ctx.broken.append("harness build failed (hx_fuzz, release)")
     stats = collections.Counter()
     nontrivial = set()
     for (kind, label, data), o in zip(inputs, outcomes):
@@ -541,6 +621,8 @@ def run(ctx):
             if not o.startswith("panic:"):
                 ctx.violation("panic:avbc-read:unattributed", "deserialize panics but the run of the same input did not report the site",
                               {"input_hex": hexs(b[:4000]), "label": inputs[i][1], "outcome": o})
+    # ---- the .aasm lexer against its model (tokens, or error)
+    lex_tie(ctx, paths["hx_fuzz"], inputs, wd)
     # ---- the real CLI in child processes
     cli = c08.cli_build(ctx)
     if not cli:
@@ -588,6 +670,7 @@ def run(ctx):
                                   {"kind": kind, "label": label, "input_hex": hexs(data[:4000]), "input_len": len(data), "cmd": args, "outcome": res,
                                    "where": "aelys-cli debug build of the current tree, 8 MiB stack, 4 GiB address space, 20 s"})
         ctx.cov["cli"] = dict(cstats)
+        ctx.cov["cli_diagnostics_reached"] = dict(DIAG.most_common(40))
     ctx.cov["distinct_nontrivial"] += len(nontrivial)
     ctx.cov["refuted_lemmas"] = []
     ctx.cov["input_distribution"] = (
